@@ -146,7 +146,8 @@ mutual
         (special : Option Str) (extractFrom : Option Term) (filter : Option Term)
         (over : Bool) (partition : List Term) (overOrder : List (Term × Option Ord)) (frame : Option Frame)
         (noParens : Bool) (alias : Option Str)
-    | param (text : Str)                                 -- explicit Parameter placeholder
+    | param (text : Str) (alias : Option Str)            -- explicit Parameter placeholder; the alias is never printed
+                                                         -- but is looked up by GROUP BY / ORDER BY
     | interval (iv : IntervalArgs)
     | json (j : JVal) (alias : Option Str)
     | pseudo (name : Str)
